@@ -185,7 +185,15 @@ static void caseMesh(const std::string& cls, const std::vector<double>& vin) {
         if (faceOk) vh::P("uv_consistent", std::string(KN) + ".findNearestPoint." + kc + ".uv", (mesh.findPoint(r.face, r.uv) - r.np).norm() / L, 1e-12);
         // inside flag = ray parity (skipped when the parity test is ambiguous or the point is within 1e-6 of the surface)
         bool amb; bool refIn = bruteInside(m, p, amb);
-        if (!amb && best > 1e-12 * L * L) vh::P("inside_eq_parity", std::string(KN) + ".findNearestPoint." + kc + ".inside", r.inside == refIn ? 0 : 1, 0);
+        // on the thin / sliver meshes the key also names the nearest feature: at a vertex or edge with an acute dihedral angle the
+        // flag is taken from one adjacent face's normal (see notes)
+        std::string kin = kc;
+        if (cls == "thin_tetrahedron" || cls == "sliver_mesh") { bool onEdge = false;
+            for (auto& f : m.F) { Vec3 q = gm::closestPointTri(p, m.V[f[0]], m.V[f[1]], m.V[f[2]]); if ((p - q).normSqr() <= best * (1 + 1e-9) + 1e-300) {
+                Vec3 e0 = m.V[f[1]] - m.V[f[0]], e1 = m.V[f[2]] - m.V[f[0]], dq = q - m.V[f[0]]; double aa = ~e0*e0, bb = ~e0*e1, cc = ~e1*e1, dd = ~e0*dq, ee = ~e1*dq, det = aa*cc - bb*bb;
+                double ss = (cc*dd - bb*ee) / det, tt = (aa*ee - bb*dd) / det; if (std::min(ss, std::min(tt, 1 - ss - tt)) < 1e-9) onEdge = true; } }
+            kin = cls; kin += onEdge ? ".nearest_on_vertex_or_edge" : ".nearest_in_face_interior"; }
+        if (!amb && best > 1e-12 * L * L) vh::P("inside_eq_parity", std::string(KN) + ".findNearestPoint." + kin + ".inside", r.inside == refIn ? 0 : 1, 0);
         vh::D(std::string("mesh.q.inside_parity.") + (best <= 1e-12 * L * L ? "skipped_on_surface" : amb ? "skipped_ambiguous" : refIn ? "checked_inside" : "checked_outside"));
         // the (inside, normal) overloads: same point / flag / distance as the (face, uv) overloads, normal = findNormalAtPoint
         { bool in2 = !r.inside; UnitVec3 n2; Vec3 np2 = mesh.findNearestPoint(p, in2, n2);
@@ -220,6 +228,104 @@ static void caseMesh(const std::string& cls, const std::vector<double>& vin) {
     // outward orientation: signed volume positive
     double vol = 0; for (auto& f : m.F) vol += ~m.V[f[0]] * (m.V[f[1]] % m.V[f[2]]) / 6;
     vh::P("outward_orientation", std::string(KN) + ".orientation." + cls + ".outward", vol > 0 ? 0 : 1, 0);
+}
+
+
+// ---- directed per-face stream (after a seeded bug in one region of findNearestPointToFace went unseen): designed triangles
+// (obtuse / sliver / right at each vertex position, needle opposite each vertex, equilateral) as the base of a tetrahedron,
+// query points in each of the seven regions of the face's plane (sign pattern of the barycentric coordinates), near the
+// triangle and far out in the wedges, at several heights.  Class = shape of the face *in the library's vertex order* x
+// region x near/far.  Record: tetra A B C D(12) face(1) p(3) + the face's vertices in library order (9, for the model).
+static std::string faceShape(const Vec3& v0, const Vec3& v1, const Vec3& v2) {
+    const Vec3 V[3] = {v0, v1, v2}; double ang[3], len[3];
+    for (int k = 0; k < 3; ++k) { Vec3 a = V[(k+1)%3] - V[k], b = V[(k+2)%3] - V[k]; ang[k] = std::atan2((a % b).norm(), ~a * b) * 180 / PI; len[k] = (V[(k+1)%3] - V[(k+2)%3]).norm(); }   // len[k] = edge opposite vertex k
+    int km = 0; for (int k = 1; k < 3; ++k) if (ang[k] > ang[km]) km = k;
+    int ks = 0; for (int k = 1; k < 3; ++k) if (len[k] < len[ks]) ks = k;
+    double lmax = std::max(len[0], std::max(len[1], len[2]));
+    if (ang[km] > 172) return "sliver_at_" + std::to_string(km);
+    if (ang[km] > 100) return "obtuse_at_" + std::to_string(km);
+    if (len[ks] / lmax < 0.08) return "needle_" + std::to_string(ks);
+    if (std::abs(ang[km] - 90) < 0.5) return "right_at_" + std::to_string(km);
+    if (std::abs(ang[0] - 60) < 1 && std::abs(ang[1] - 60) < 1) return "equilateral";
+    return "acute";
+}
+static int planeRegion(const Vec3& v0, const Vec3& v1, const Vec3& v2, const Vec3& p, double& far) {
+    Vec3 e0 = v1 - v0, e1 = v2 - v0, dl = p - v0; long double a = ~e0*e0, b = ~e0*e1, c = ~e1*e1, d = ~e0*dl, e = ~e1*dl, det = a*c - b*b;
+    long double s = (c*d - b*e) / det, t = (a*e - b*d) / det;
+    far = (double)std::max(std::max(-s, -t), s + t - 1);      // how far outside, in barycentric units
+    if (s + t <= 1) { if (s < 0) return t < 0 ? 4 : 3; return t < 0 ? 5 : 0; }
+    if (s < 0) return 2; if (t < 0) return 6; return 1;
+}
+static void caseTri(const std::vector<double>& vin, std::set<std::string>* cover) {
+    gm::Mesh m; for (int i = 0; i < 4; ++i) m.V.push_back(V(vin, 3*i)); m.F = {{0, 1, 2}, {0, 3, 1}, {1, 3, 2}, {2, 3, 0}};
+    int face = (int)vin[12]; Vec3 p = V(vin, 13);
+    TM mesh(m.vertices(), m.faceIndices(), false);
+    Vec3 L0 = mesh.getVertexPosition(mesh.getFaceVertex(face, 0)), L1 = mesh.getVertexPosition(mesh.getFaceVertex(face, 1)), L2 = mesh.getVertexPosition(mesh.getFaceVertex(face, 2));
+    double far; int reg = planeRegion(L0, L1, L2, p, far);
+    const std::string cls = faceShape(L0, L1, L2) + ".region" + std::to_string(reg) + (far > 0.75 ? ".far" : ".near");
+    if (cover) cover->insert(cls);
+    std::vector<double> v(vin.begin(), vin.begin() + 16); push3(v, L0); push3(v, L1); push3(v, L2);
+    emitI("tri.q", cls, v);
+    Vec2 uv(NaN); Vec3 np = mesh.findNearestPointToFace(p, face, uv);
+    vh::O("tri.q").d(np[0]).d(np[1]).d(np[2]).d(uv[0]).d(uv[1]).emit();
+    vh::D("tri.q." + cls);
+    const double Ls = std::max((L1 - L0).norm(), std::max((L2 - L0).norm(), (L2 - L1).norm()));
+    const std::string K = "TriangleMesh.findNearestPointToFace." + cls;
+    Vec3 ref = gm::closestPointTri(p, L0, L1, L2); double dref = (p - ref).norm(), dimp = (p - np).norm();
+    vh::P("nearest_on_face_exact", K + ".exact_distance", std::abs(dimp - dref) / std::max(Ls, dref), 1e-10);
+    vh::P("uv_in_triangle", K + ".uv_in_range", std::max(0.0, std::max(-uv[0], std::max(-uv[1], uv[0] + uv[1] - 1))), 1e-14);
+    vh::P("uv_reproduces_point", K + ".uv_point", (mesh.findPoint(face, uv) - np).norm() / Ls, 1e-13);
+    vh::P("point_in_face", K + ".point_on_face", std::sqrt(gm::pointTriDist2(np, L0, L1, L2)) / Ls, 1e-12);
+}
+static void directedTriangles(uint64_t seed, bool emit) {
+    vh::Rng g(seed * 6364136223846793005ull + 36); std::set<std::string> cover;
+    // designed triangles in the plane z = 0, (P0,P1,P2) with the special corner at P0; rot = cyclic shift of the labels
+    struct Tri { Vec3 a, b, c; };
+    auto designs = [&]() { std::vector<Tri> ts;
+        for (int rot = 0; rot < 3; ++rot) {
+            auto put = [&](Vec3 P0, Vec3 P1, Vec3 P2) { Vec3 Q[3] = {P0, P1, P2}; ts.push_back({Q[(3 - rot) % 3], Q[(4 - rot) % 3], Q[(5 - rot) % 3]}); };
+            double th = g.range(110, 165) * PI / 180; put(Vec3(0), Vec3(g.range(0.5, 1.5), 0, 0), g.range(0.5, 1.5) * Vec3(std::cos(th), std::sin(th), 0));            // obtuse at P0
+            th = g.range(174, 178.5) * PI / 180; put(Vec3(0), Vec3(g.range(0.5, 1.5), 0, 0), g.range(0.5, 1.5) * Vec3(std::cos(th), std::sin(th), 0));             // sliver at P0
+            put(Vec3(0), Vec3(g.range(0.5, 1.5), 0, 0), Vec3(0, g.range(0.5, 1.5), 0));                                                                              // right angle at P0
+            put(Vec3(g.range(0.8, 1.5), g.range(-0.01, 0.01), 0), Vec3(0, -0.025, 0), Vec3(0, 0.025, 0));                                // needle: short edge opposite P0
+        }
+        double L = g.range(0.5, 1.5); ts.push_back({Vec3(0), Vec3(L, 0, 0), Vec3(L / 2, L * std::sqrt(3.0) / 2, 0)});
+        return ts; }();
+    // (s,t) samples of the seven regions, near and far
+    for (size_t ti = 0; ti < designs.size(); ++ti) {
+        Tri T = designs[ti]; Rotation R(g.range(0, 2*PI), UnitVec3(rndUnit(g))); Vec3 off = rndVec(g, 0.1, 1);
+        Vec3 n(0, 0, 1); double Ls = std::max((T.b - T.a).norm(), std::max((T.c - T.a).norm(), (T.c - T.b).norm()));
+        Vec3 D = (T.a + T.b + T.c) / 3 - g.range(0.05, 0.4) * Ls * n;          // apex on the inner side of (a,b,c)
+        Vec3 A = R * T.a + off, B = R * T.b + off, C = R * T.c + off, Dd = R * D + off, nn = R * n;
+        for (int reg = 0; reg < 7; ++reg) for (int farI = 0; farI < 3; ++farI) for (int hI = 0; hI < 4; ++hI) {
+            // m = how far outside the triangle (barycentric units): near 0.05..0.5, far 2..8 and 20..60
+            double mm = farI == 0 ? g.range(0.05, 0.5) : farI == 1 ? g.range(2, 8) : g.range(20, 60), u = g.range(0.1, 0.9), r2 = g.range(0.1, 1.0), s = 0, t = 0;
+            switch (reg) {
+            case 0: s = g.range(0.05, 0.6); t = g.range(0.05, 0.9 - s); break;
+            case 1: s = u * (1 + mm); t = (1 - u) * (1 + mm); break;
+            case 2: s = -mm; t = 1 + mm + mm * r2; break;
+            case 3: s = -mm; t = u; break;
+            case 4: s = -mm; t = -mm * r2; break;
+            case 5: s = u; t = -mm; break;
+            case 6: t = -mm; s = 1 + mm + mm * r2; break; }
+            static const double hs[4] = {0, 1e-3, 0.4, 5};
+            Vec3 p = A + s * (B - A) + t * (C - A) + (hI % 2 ? -1 : 1) * hs[hI] * Ls * nn;
+            std::vector<double> v; push3(v, A); push3(v, B); push3(v, C); push3(v, Dd); v.push_back(0); push3(v, p);
+            if (emit) caseTri(v, &cover);
+            else { gm::Mesh m; m.V = {A, B, C, Dd}; m.F = {{0, 1, 2}, {0, 3, 1}, {1, 3, 2}, {2, 3, 0}}; TM mesh(m.vertices(), m.faceIndices(), false);
+                   Vec3 L0 = mesh.getVertexPosition(mesh.getFaceVertex(0, 0)), L1 = mesh.getVertexPosition(mesh.getFaceVertex(0, 1)), L2 = mesh.getVertexPosition(mesh.getFaceVertex(0, 2));
+                   double far; int rg = planeRegion(L0, L1, L2, p, far); cover.insert(faceShape(L0, L1, L2) + ".region" + std::to_string(rg) + (far > 0.75 ? ".far" : ".near")); }
+        }
+    }
+    // coverage floor: every shape class x region (x near/far outside the triangle) must have been hit
+    int missing = 0; std::string firstMissing;
+    std::vector<std::string> shapes = {"equilateral"}; for (const char* b : {"obtuse_at_", "sliver_at_", "right_at_", "needle_"}) for (int k = 0; k < 3; ++k) shapes.push_back(std::string(b) + std::to_string(k));
+    for (auto& sh : shapes) for (int reg = 0; reg < 7; ++reg) for (const char* nf : {".near", ".far"}) {
+        if (reg == 0 && std::string(nf) == ".far") continue;
+        std::string c = sh + ".region" + std::to_string(reg) + nf; if (!cover.count(c)) { ++missing; if (firstMissing.empty()) firstMissing = c; } }
+    emitI("p.tri.coverage", "directed", {(double)seed}); std::puts("O p.tri.coverage -");
+    vh::D("p.tri.coverage.classes_hit=" + std::to_string((int)cover.size()) + (missing ? ".first_missing=" + firstMissing : ""));
+    vh::P("directed_stream_covers_all_classes", "TriangleMesh.findNearestPointToFace.directed.coverage", missing, 0);
 }
 
 // ---- adjacency tables
@@ -482,6 +588,9 @@ static void degenerate(vh::Rng& g, long n) {
           push3(v, 0.5 * (m.V[0] + m.V[3])); push3(v, Vec3(5, 0.01, 0.02)); push3(v, Vec3(-1, 0, 0));
           push3(v, 2 * m.V[1]); push3(v, Vec3(0, 0, 9)); push3(v, Vec3(0, 0, -1));
           caseMesh("box_special_points", v); }
+        // thin / sliver meshes: mesh-level queries vs brute force (kinds 4: sheared flattened icosphere, 5: thin tetrahedron)
+        caseMesh("sliver_mesh", meshRecord(g, 4, 1, 8)); caseMesh("thin_tetrahedron", meshRecord(g, 5, 1, 8));
+        if (it == 0) directedTriangles(g.next() % 1000000, true);
         // file syntax variants (shape 2)
         caseFile("syntax_variants", {(double)g.below(4), (double)(g.next() % 100000), 1, 2});
     }
@@ -510,6 +619,8 @@ static void replay() {
         else if (fn == "sph2") caseSph(2, cls, v); else if (fn == "sph3") caseSph(3, cls, v);
         else if (fn == "mesh.q") caseMesh(cls, v); else if (fn == "p.topo.params") caseTopo(cls, v);
         else if (fn == "p.mesh.file") caseFile(cls, v);
+        else if (fn == "tri.q") caseTri(v, nullptr);
+        else if (fn == "p.tri.coverage") directedTriangles((uint64_t)v[0], false);
     }
 }
 
